@@ -537,7 +537,7 @@ impl Exec {
             }
         }
         self.quiesce(emit);
-        if !self.closed && !self.caller_busy {
+        if !self.closed && !self.caller_busy && self.close_abs.is_none() {
             let before = self.sent_ids().len();
             let e = self.exec(&json!({"c": "rpc", "good": true}));
             emit(e);
